@@ -93,60 +93,6 @@ fn case_strategy() -> BoxedStrategy<Case> {
         .boxed()
 }
 
-/// `ska weed` computes floor(n*f): only use f where n*f is an exact integer (DESIGN §7)
-fn weed_freq(f: &Freq, n: usize) -> Freq {
-    if f.exact(n) {
-        return *f;
-    }
-    match f {
-        Freq::Half(s) => {
-            let r = Freq::Ratio(*s);
-            if r.exact(n) {
-                r
-            } else {
-                Freq::Zero
-            }
-        }
-        Freq::Dyadic(m) => {
-            let r = Freq::Ratio((*m as u16) << 13);
-            if r.exact(n) {
-                r
-            } else {
-                Freq::Zero
-            }
-        }
-        _ => Freq::Zero,
-    }
-}
-
-/// the filter `ska weed` applies for these flags, or None when it applies none
-fn weed_filter_spec(fl: &Flags, n: usize) -> (Flags, Option<FilterSpec>) {
-    let mut g = fl.clone();
-    g.freq = weed_freq(&fl.freq, n);
-    let threshold = g.freq.ceil(n);
-    let applies = threshold > 0 || g.kind != FilterKind::NoFilter || g.ambig_mask || g.no_gap_only;
-    if !applies {
-        // --filter-ambig-as-missing alone requests nothing (it qualifies --min-freq)
-        g.ambig_as_missing = false;
-        return (g, None);
-    }
-    let sp = FilterSpec { min_count: threshold.max(1), kind: g.kind, ambig_as_missing: g.ambig_as_missing, ambig_mask: g.ambig_mask, no_gap_only: g.no_gap_only };
-    (g, Some(sp))
-}
-
-fn weed_filter_args(g: &Flags, n: usize) -> Vec<String> {
-    let mut a = vec!["--min-freq".to_string(), g.freq.arg(n), "--filter".to_string(), g.kind.cli().to_string()];
-    if g.ambig_as_missing {
-        a.push("--filter-ambig-as-missing".into());
-    }
-    if g.ambig_mask {
-        a.push("--ambig-mask".into());
-    }
-    if g.no_gap_only {
-        a.push("--no-gap-only-sites".into());
-    }
-    a
-}
 
 fn check(c: &Case, ctx: &Ctx) -> Outcome {
     let (anc, mut samples) = gen::materialise_set(&c.set);
@@ -245,9 +191,9 @@ fn check(c: &Case, ctx: &Ctx) -> Outcome {
                     kinds.push(if *reverse { "reverse_weed" } else { "weed" });
                 }
                 Op::Filter { flags } => {
-                    let (g, sp) = weed_filter_spec(flags, n);
+                    let (g, sp) = c06::weed_filter_spec(flags, n);
                     let mut args: Vec<String> = vec!["weed".into(), "cur.skf".into()];
-                    args.extend(weed_filter_args(&g, n));
+                    args.extend(c06::weed_filter_args(&g, n));
                     trace.push(args.join(" "));
                     let argv: Vec<&str> = args.iter().map(|s| s.as_str()).collect();
                     must_ok(&run_ska(ctx, &dir, &argv), &format!("ska {}", args.join(" ")))?;
@@ -344,9 +290,9 @@ fn check(c: &Case, ctx: &Ctx) -> Outcome {
                         (o.ok(), o.stdout)
                     }
                     Final::WeedFilter(fl) => {
-                        let (g, sp) = weed_filter_spec(fl, n);
+                        let (g, sp) = c06::weed_filter_spec(fl, n);
                         let mut args: Vec<String> = vec!["weed".into(), file.into(), "-o".into(), "wf_out.skf".into()];
-                        args.extend(weed_filter_args(&g, n));
+                        args.extend(c06::weed_filter_args(&g, n));
                         desc = args.join(" ");
                         let argv: Vec<&str> = args.iter().map(|s| s.as_str()).collect();
                         must_ok(&run_ska(ctx, &dir, &argv), &format!("ska {desc}"))?;
